@@ -43,6 +43,7 @@ class Matcher:
                     table[ph] = c
                     out.append(chr(ph))
             pattern = "".join(out)
+        self._incache = {}
         self.p = sre_parse.parse(pattern, flags)
         if table:
             self._subst(self.p, table)
@@ -91,6 +92,15 @@ class Matcher:
         return SS._not(r) if neg else r
 
     def _in(self, items, c):
+        if not isinstance(c, int):
+            key = (id(items), c.get_id())
+            r = self._incache.get(key)
+            if r is None:
+                r = self._incache[key] = (c, self._in_uncached(items, c))
+            return r[1]
+        return self._in_uncached(items, c)
+
+    def _in_uncached(self, items, c):
         neg = False
         conds = []
         for op, av in items:
@@ -297,6 +307,9 @@ def _as_symstr(s):
     raise Unsupported("regex subject %r" % type(s))
 
 
+_MATCHERS = {}
+
+
 class Pattern:
     def __init__(self, pattern, flags=0):
         self.is_bytes = isinstance(pattern, (bytes, SymBytes))
@@ -313,7 +326,17 @@ class Pattern:
     @property
     def mm(self):
         if self._m is None:
-            self._m = Matcher(self._spat, self.flags & ~_re.U, self.is_bytes)
+            sp = self._spat
+            if isinstance(sp, str):
+                key = (sp, self.flags & ~_re.U, self.is_bytes)
+                m = _MATCHERS.get(key)
+                if m is None:
+                    if len(_MATCHERS) > 500:
+                        _MATCHERS.clear()
+                    m = _MATCHERS[key] = Matcher(sp, self.flags & ~_re.U, self.is_bytes)
+                self._m = m
+            else:
+                self._m = Matcher(sp, self.flags & ~_re.U, self.is_bytes)
         return self._m
 
     def _concrete(self, s):
